@@ -233,11 +233,15 @@ def run(chk):
                 "object, an independently built twin, decode(encode(a)), and a with exactly one change — a header scalar, a "
                 "channel number, a label, a sample / coordinate / coefficient moved far beyond tolerance, a present frame made "
                 "missing, one item / link / point appended, the last item removed; a == b and b == a on the implementation vs "
-                "Equality.v and vs the property's verdict; plus pairs of files built from such blocks; non-trivial = >= 1 item")
+                "Equality.v and vs the property's verdict; the same for blocks with 256 or more items; plus pairs of files built from such blocks; non-trivial = >= 1 item")
     cases, meta = [], []
-    for i in range(n):
-        kind = blocks.KINDS[i % len(blocks.KINDS)]
-        fmt, v = blocks.gen(kind, rng, big=4)
+    large = codec.large_count_cases(chk)               # 256 or more items / channels / points / segments
+    for i in range(n + len(large)):
+        if i < n:
+            kind = blocks.KINDS[i % len(blocks.KINDS)]
+            fmt, v = blocks.gen(kind, rng, big=4)
+        else:
+            kind, fmt, v = large[i - n]
         v = sanitize(kind, v)
         try:
             a = blocks.build(kind, fmt, v)
